@@ -60,7 +60,7 @@ pub fn char_width(c: char) -> usize {
     // same definition of display width as the library uses (unicode-width); the harness only
     // uses characters whose width is unambiguous
     match c {
-        '\u{4e16}' | '\u{754c}' => 2,
+        '\u{4e16}' | '\u{754c}' | '\u{3000}' => 2,
         _ => 1,
     }
 }
